@@ -32,7 +32,7 @@ TWOFOLDS = {"2-fold about a": (1, -1, -1), "2-fold about b": (-1, 1, -1), "2-fol
 def tasks(tier):
     t = [("t_invariants", {}), ("t_slip_rates", {}), ("t_schmid", {}), ("t_softest", {}), ("t_spin", {}), ("t_energy", {})]
     t += [("t_glue", {"phase": ph, "fabric": fb}) for ph, fb in (kernel.FABRICS if tier == "thorough" else [kernel.FABRICS[0], kernel.FABRICS[2], kernel.FABRICS[5]])]
-    t += [("t_rhs", {"n_grains": 1 if tier == "quick" else 2, "regime": rg}) for rg in ("matrix_dislocation", "frictional_yielding")]
+    t += [("t_rhs", {"n_grains": n, "regime": rg}) for rg in ("matrix_dislocation", "frictional_yielding") for n in ((1,) if tier == "quick" else (2, 3))]
     return t
 
 
